@@ -229,6 +229,30 @@ def run(ctx):
         tg = g.pick_targets(sc)
         step = {"op": "build", "targets": tg, "j": 3, "k": 1, "sched": {"mode": "prng", "seed": k}, "snap": False}
         jobs.append((simlib.scenario_json(sc, [step]), sc, step, None, "/large"))
+    # ---- validations of validations: the cycle lies only behind the n-th level
+    for k in range(120 if quick else 2500):
+        depth = rng.randint(1, 3)
+        sc = {"id": "C17-V-%d-%d" % (ctx.seed, k), "sources": {"in.c": "// in\n"}, "pools": {}, "defaults": [], "stmts": []}
+        top = St("top", ["top.o"], ins=["in.c"], vals=["v1.ok"])
+        sc["stmts"].append(top)
+        for lv in range(1, depth + 1):
+            st = St("v%d" % lv, ["v%d.ok" % lv], ins=[rng.choice(("in.c", "top.o")) if lv == 1 else "in.c"])
+            if lv < depth:
+                st["vals"] = ["v%d.ok" % (lv + 1)]
+            sc["stmts"].append(st)
+        last = sc["stmts"][-1]
+        where = rng.choice(("none", "at", "behind", "behind"))
+        if where == "at":
+            # the last validation statement and a helper need each other
+            last["ins"].append("loop.o")
+            sc["stmts"].append(St("loop", ["loop.o"], ins=[last["outs"][0]]))
+        elif where == "behind":
+            last[rng.choice(("ins", "iins", "oins"))].append("la.o")
+            sc["stmts"].append(St("la", ["la.o"], ins=["lb.o"]))
+            sc["stmts"].append(St("lb", ["lb.o"], ins=[rng.choice(("la.o", "la.o", "lb.o"))]))
+        tg = rng.choice((["top.o"], [], ["top.o"]))
+        step = {"op": "build", "targets": tg, "j": 2, "k": 1, "sched": {"mode": "prng", "seed": k}, "snap": False}
+        jobs.append((simlib.scenario_json(sc, [step]), sc, step, None, "/nested-validation-%d" % depth))
     # ---- legacy self-referencing phony
     for kx, flag in enumerate((False, True)):
         sc = {"id": "C17-ph-%d" % kx, "sources": {"x": "x\n"}, "pools": {}, "defaults": [],
@@ -262,7 +286,7 @@ def run(ctx):
     dyndep_cycle_family(ctx, rng, 150 if quick else 3000)
     ctx.rule = ("all graphs with 1..2 statements over 3 files (1 explicit + optional implicit output; each other file: none / explicit / "
                 "implicit / order-only / validation), every %d-th graph with 3 statements over 4 files, random graphs of 4..%d statements "
-                "with planted back edges, stale-record and dyndep mid-build families; distinct_nontrivial = distinct scenarios whose "
+                "with planted back edges, validations nested 1..3 deep with the cycle behind the last level, stale-record and dyndep mid-build families; distinct_nontrivial = distinct scenarios whose "
                 "requested closure is cyclic" % (stride, 20 if quick else 40))
     ctx.exhaustive = False
 
